@@ -9,7 +9,8 @@
    above — axioms of the STANDARD LIBRARY about primitive floats, nothing else.  These theorems are therefore
    not in Props/C03.v (the driver's allow-list has only the Reals axioms); see notes/C03.md.           *)
 From Coq Require Import ZArith List Lia Bool Floats.
-From Tevec Require Import Base.Prelude Base.Num Base.F64 Model.Driver Model.Cmp Spec.ExtremaOrd Proofs.CmpOrd.
+From Tevec Require Import Base.Prelude Base.Num Base.XR Base.F64 Model.Driver Model.Cmp Spec.ExtremaOrd Proofs.CmpOrd
+     Proofs.RollRankOrd.
 Import ListNotations.
 
 (* ---- SFcompare on non-NaN spec floats is a lexicographic comparison of integer triples ---------------- *)
@@ -174,5 +175,68 @@ Example f64_example_min :
             (seq 0 5)).
 Proof. vm_compute. reflexivity. Qed.
 
+(* Option<f64> (IsNone_option: only `None` is null): the same four theorems under the premise that no element is
+   Some(NaN) (DESIGN 5.4) *)
+Theorem cmp_optf64 body w mp (xs : list (option float)) :
+  valid_not_nan (DT := IsNoneOptF64) xs -> 1 <= w -> 1 <= length xs ->
+  (exists out, ts_vmin (DT := IsNoneOptF64) body w mp xs = Done out /\ length out = length xs /\
+     forall i, i < length xs ->
+       nth_error out i =
+       Some (let V := gvalid (win w i (map to_opt xs)) in
+             if cmp_mp mp (cmp_window w xs) <=? length V then gmin V else None)) /\
+  (exists out, ts_vmax (DT := IsNoneOptF64) body w mp xs = Done out /\ length out = length xs /\
+     forall i, i < length xs ->
+       nth_error out i =
+       Some (let V := gvalid (win w i (map to_opt xs)) in
+             if cmp_mp mp (cmp_window w xs) <=? length V then gmax V else None)) /\
+  (exists out, ts_vargmin (DT := IsNoneOptF64) body w mp xs = Done out /\ length out = length xs /\
+     forall i, i < length xs ->
+       nth_error out i =
+       Some (let W := win w i (map to_opt xs) in
+             if cmp_mp mp (cmp_window w xs) <=? length (gvalid W) then gargmin_spec W else None)) /\
+  (exists out, ts_vargmax (DT := IsNoneOptF64) body w mp xs = Done out /\ length out = length xs /\
+     forall i, i < length xs ->
+       nth_error out i =
+       Some (let W := win w i (map to_opt xs) in
+             if cmp_mp mp (cmp_window w xs) <=? length (gvalid W) then gargmax_spec W else None)).
+Proof.
+  intros Hxs Hw Hlen. repeat split.
+  - exact (ts_vmin_ord ordlaws_F64 body w mp xs Hxs Hw Hlen).
+  - exact (ts_vmax_ord ordlaws_F64 body w mp xs Hxs Hw Hlen).
+  - exact (ts_vargmin_ord ordlaws_F64 body w mp xs Hxs Hw Hlen).
+  - exact (ts_vargmax_ord ordlaws_F64 body w mp xs Hxs Hw Hlen).
+Qed.
+
+(* the premise cannot be dropped: with Some(NaN) elements the NaN fall-back of sort_cmp never "takes", the rescan
+   leaves the stale index in place and ts_vargmin computes `min_idx - start` below zero (model; DESIGN 5.4 puts
+   such series outside the property) *)
+Example f64_some_nan_is_outside :
+  ts_vargmin (DT := IsNoneOptF64) true 2 (Some 0) [Some nan; Some nan; Some nan] = Panicked Underflow /\
+  ~ valid_not_nan (DT := IsNoneOptF64) [Some nan; Some nan; Some nan].
+Proof.
+  split; [vm_compute; reflexivity|].
+  intros H. specialize (H (Some nan) (or_introl eq_refl) eq_refl). vm_compute in H. discriminate.
+Qed.
+
+(* ts_vrank with f64 input (NaN = null): the counts are those of the float comparisons; the output arithmetic is
+   stated over exact reals (B = option R), as in C03_ts_vrank *)
+Theorem ts_vrank_f64_input body w mp pct rev (xs : list float) :
+  1 <= w -> 1 <= length xs ->
+  exists out, ts_vrank (DT := IsNoneF64) (B := XR) body w mp pct rev xs = Done out /\ length out = length xs /\
+    forall i, i < length xs ->
+      nth_error out i =
+      Some (match nth_error (map to_opt xs) i with
+            | Some (Some x) =>
+                let V' := gvalid (seg (wstart w i) i (map to_opt xs)) in
+                if cmp_mp mp (cmp_window w xs) <=? S (length V') then Some (g_avg_rank pct rev x V')
+                else None
+            | _ => None
+            end).
+Proof.
+  apply (ts_vrank_ord ordlaws_F64). intros v _ H. exact H.
+Qed.
+
 Print Assumptions ordlaws_F64.
 Print Assumptions ts_vargmax_f64.
+Print Assumptions cmp_optf64.
+Print Assumptions ts_vrank_f64_input.
